@@ -1649,3 +1649,30 @@ package http2
 //@ # what is handed on is a frame for a stream, or the GOAWAY
 //@ ensures stream: r1 == nil ==> r0 != nil && r0.fr != nil && (r0.stream != 0 || r0.kind == FrameGoAway)
 //@ ensures sticky: old(c.goAway) != 0 ==> c.goAway != 0
+
+// ---- client: handing stream frames to the requests that wait for them ----
+
+//@ # a request that waits in the connection's table carries the caller's request and response objects
+//@ type Ctx invariant full: self.Request != nil && self.Response != nil
+
+//@ func (*Conn).hasReqsUpTo
+//@ props C11
+//@ requires recv: c != nil
+//@ opt noframe=true
+//@ modifies nothing
+
+//@ func (*Conn).dispatch
+//@ props C11 C02
+//@ requires args: c != nil && fr != nil
+//@ requires typed: 0 <= fr.kind && fr.kind <= 9 && frameTypeOK(fr.fr, fr.kind) && fr.length >= 0 && fr.length <= 16777215
+//@ requires win: c.maxWindow >= 0 && c.currentWindow >= c.maxWindow / 2 && c.currentWindow <= c.maxWindow
+//@ requires dec: c.dec != nil && hpackOK(c.dec)
+//@ opt noframe=true
+//@ opt noovf=true
+//@ modifies c.currentWindow, c.dec.maxTableSize, c.dec.dynamic, capacity(c.dec.dynamic), family(HeaderField), anybytes(), c.openStreams, family(Ctx), family(pendingBody)
+//@ # RFC 7540 6.8: after a GOAWAY the server still finishes the streams up to the one it named. Short of an error, the read
+//@ # loop is told to stop only on a connection that is closing and only after the table of waiting requests has been asked
+//@ # and has none left at or below that stream - not at the first frame of that stream
+//@ ghost waiting = true
+//@ ghost@ret:(*Conn).hasReqsUpTo#1 waiting = ret0
+//@ ensures stop: r0 && local(err) == nil ==> c.state == 1 && !waiting
